@@ -61,6 +61,22 @@ def _():
     return "/-- default of `self._statuses.get(job_id, …)` in `HpcStatusCollector.check_status` -/\ndef collectorDefault : String := " + lstr(enum_member(r.args[1], "HpcJobStatus"))
 
 
+@site("slurm.collectorPropagates", "Slurm", ["C18", "C06", "C05", "C12", "C11", "C15"])
+def _():
+    """does a failure of the status query (ExecutionError from `check_statuses()`) leave `check_status`?"""
+    fn = find_def(HPCSUB, "HpcStatusCollector.check_status")
+    calls = [s for s in walk_stmts(fn) if "self._hpc_mgr.check_statuses()" in src(s) and not isinstance(s, (ast.If, ast.Try, ast.For, ast.While, ast.With))]
+    the(calls, "call of check_statuses()")
+    propagates = True
+    for t in [s for s in walk_stmts(fn) if isinstance(s, ast.Try)]:
+        if any("self._hpc_mgr.check_statuses()" in src(b) for b in t.body):
+            # caught: it still propagates only if every handler ends with a bare `raise`
+            if not all(isinstance(h.body[-1], ast.Raise) and h.body[-1].exc is None for h in t.handlers):
+                propagates = False
+    return ("/-- a failed status query (squeue failing through all retries) is not swallowed by the collector -/\n"
+            f"def collectorPropagatesQueryFailure : Bool := {'true' if propagates else 'false'}")
+
+
 @site("slurm.completeStatuses", "Slurm", ["C18", "C06", "C05", "C12"])
 def _():
     fn = find_def(HPCSUB, "AsyncHpcSubmitter.is_complete")
